@@ -208,6 +208,7 @@ def replay(case):
 def main():
     t = common.tier()
     chk = common.Check(PID, 'model_checking')
+    chk.unexercised_whats = {'command-failed'}   # a failing command is not what C08 is about: reported as 'could not exercise'
     H.materialize()
     depth = 3 if t == 'quick' else 4
     try:
